@@ -131,8 +131,8 @@ theorem good_some {ext : CheckAuthExt} {hasTLS hasChains : Bool} {cookies : List
     {info : authInfo} {t : List AuthEffect} (h : Admitted ext hasTLS hasChains cookies req info) :
     Good ext hasTLS hasChains cookies req ((some info, none), t) := ⟨rfl, h⟩
 
-theorem cookie_loop (nm : List Char) (cs : List Cookie) (st : Option Cookie) :
-    KM.Go.forRange (ρ := (Option authInfo × Option Err) × List AuthEffect) (cs.map some) st (fun cookie st => match st with
+theorem cookie_loop {ρ : Type} (nm : List Char) (cs : List Cookie) (st : Option Cookie) :
+    KM.Go.forRange (ρ := ρ) (cs.map some) st (fun cookie st => match st with
         | authCookie =>
           if ((KM.GoTypes.cookieName cookie) != nm) then
             KM.Go.Ctl.next authCookie
